@@ -36,6 +36,12 @@ CHECKS = {
  "C10": ("runtime monitor over recorded call histories: the harness PixelData logs every GetFrame/AddFrame; per-call model = a fresh solo call (registry codecs) or a fresh object (jpeg2000.Encoder/Decoder); canary-capacity buffers detect writes into caller memory",
          "Held on every executed history: for all 14 registered syntaxes frame sequences of length 1..8 (random, permutation, sub-sequence, repeat, alternate) with 1:1/ordered/independent/deterministic/unmodified-input/length/lossless oracles, plus jpeg2000.Encoder histories over 11 parameter kinds and jpeg2000.Decoder histories over 9 stream kinds (with/without colour transform, custom MCT markers, MCT bindings, ROI COM marker). One known finding (BitsAllocated=16 with BitsStored<=8).",
          "The model of frame independence is the same library run on one frame by a fresh call/object; a defect that makes every call wrong in the same way is C01-C07's business.", "3/C10"),
+ "C11": ("runtime monitor: per-sample error oracle against the bound computed from the DQT tables that an independent strict T.81 walker reads from the emitted stream; every quality 1..100, every partial-block shape, one image per DCT basis function",
+         "Held on every executed (image, quality, codec mode): baseline 8-bit grey/RGB, extended 8-bit grey/RGB and 12-bit grey; the matching decoder accepted every stream the encoder returned.",
+         "Trusted: internal/ref/jpegwalk.go (marker walker), the JFIF inverse colour matrix; the bound is the property's own (loose at low quality by construction).", "3/C11"),
+ "C12": ("runtime monitor: per-sample error oracle against the bound computed from the QCD step sizes (independent 15444-1 walker) propagated through an independent float64 9/7 synthesis (exact impulse gains up to 4096 samples, absolute-lifting upper bound above) and |ICT^-1|",
+         "Held on every executed (image, configuration): every quality 1..100, NumLevels 0..6, P in {8,12,16}, signed/unsigned, 1/3 components, sizes to 512. One known finding (int32 overflow of the quantiser at very fine steps).",
+         "Trusted: internal/ref/j2kwalk.go and dwt97.go (self-validated in the prelude: perfect reconstruction, conservative >= exact gains); allowance fixed in DESIGN.md before the check existed.", "3/C12"),
 }
 
 NOT_YET = {
